@@ -109,12 +109,15 @@ class Reporter:
         self.run = run
         self.cap = cap
         self.seen: Dict[str, int] = {}
+        self.suppressed: set = set()
 
     def fail(self, clause, sig, witness, msg, replay):
         key = json.dumps(dict(sig, clause=clause), sort_keys=True)
         self.seen[key] = self.seen.get(key, 0) + 1
-        if self.seen[key] <= self.cap:
-            self.run.fail(clause, sig, witness, msg, replay=replay)
+        if self.seen[key] <= self.cap or key in self.suppressed:
+            # a listed open finding is counted in full by the run (nothing is stored for it)
+            if self.run.fail(clause, sig, witness, msg, replay=replay):
+                self.suppressed.add(key)
         else:
             self.run.clauses[clause] += 1
 
@@ -260,35 +263,38 @@ def stager_configs(q: bool) -> List[Tuple[str, Dict[str, Any]]]:
     lim = Def("1..12")
     if q:
         return [
-            ("A12", {"MinLen": 1, "MaxLen": 2, "Turns": [1, 2], "Ords": [3, 10, 99], "Slices": [0, 1], "Sizes": [1, 2, 3], "Limits": lim}),
-            ("A3", {"MinLen": 3, "MaxLen": 3, "Turns": [1, 2], "Ords": [1, 6, 9], "Slices": [0, 1], "Sizes": [1, 3], "Limits": lim}),
-            ("B4", {"MinLen": 4, "MaxLen": 4, "Turns": [1, 2], "Ords": [5, 8], "Slices": [0], "Sizes": [1, 2], "Limits": lim}),
-            ("B5", {"MinLen": 5, "MaxLen": 5, "Turns": [1, 2], "Ords": [6], "Slices": [0], "Sizes": [1, 2, 3], "Limits": lim}),
+            ("A12", {"MinLen": 1, "MaxLen": 2, "Turns": [1, 2], "Ords": [3, 10, 99], "Slices": [0, 1], "Sizes": [1, 2, 3], "Limits": lim, "AdmitOversize": True}),
+            ("A3", {"MinLen": 3, "MaxLen": 3, "Turns": [1, 2], "Ords": [1, 6, 9], "Slices": [0, 1], "Sizes": [1, 3], "Limits": lim, "AdmitOversize": True}),
+            ("B4", {"MinLen": 4, "MaxLen": 4, "Turns": [1, 2], "Ords": [5, 8], "Slices": [0], "Sizes": [1, 2], "Limits": lim, "AdmitOversize": True}),
+            ("B5", {"MinLen": 5, "MaxLen": 5, "Turns": [1, 2], "Ords": [6], "Slices": [0], "Sizes": [1, 2, 3], "Limits": lim, "AdmitOversize": True}),
         ]
     return [
-        ("A13", {"MinLen": 1, "MaxLen": 3, "Turns": [1, 2], "Ords": [1, 6, 9], "Slices": [0, 1], "Sizes": [1, 2, 3], "Limits": lim}),
-        ("A13b", {"MinLen": 1, "MaxLen": 3, "Turns": [1, 2], "Ords": [3, 10, 99], "Slices": [0, 1], "Sizes": [1, 3], "Limits": lim}),
-        ("A4a", {"MinLen": 4, "MaxLen": 4, "Turns": [1, 2], "Ords": [2, 5, 8], "Slices": [0, 1], "Sizes": [1], "Limits": lim}),
-        ("A4b", {"MinLen": 4, "MaxLen": 4, "Turns": [1, 2], "Ords": [5, 8], "Slices": [0, 1], "Sizes": [1, 2], "Limits": lim}),
-        ("B5", {"MinLen": 5, "MaxLen": 5, "Turns": [1, 2], "Ords": [4, 7], "Slices": [0], "Sizes": [1, 2], "Limits": lim}),
-        ("C5", {"MinLen": 5, "MaxLen": 5, "Turns": [1, 2], "Ords": [6], "Slices": [0, 1], "Sizes": [1, 2], "Limits": lim}),
-        ("D5", {"MinLen": 5, "MaxLen": 5, "Turns": [1], "Ords": [1, 6, 9], "Slices": [0], "Sizes": [1, 3], "Limits": lim}),
+        ("A13", {"MinLen": 1, "MaxLen": 3, "Turns": [1, 2], "Ords": [1, 6, 9], "Slices": [0, 1], "Sizes": [1, 2, 3], "Limits": lim, "AdmitOversize": True}),
+        ("A13b", {"MinLen": 1, "MaxLen": 3, "Turns": [1, 2], "Ords": [3, 10, 99], "Slices": [0, 1], "Sizes": [1, 3], "Limits": lim, "AdmitOversize": True}),
+        ("A4a", {"MinLen": 4, "MaxLen": 4, "Turns": [1, 2], "Ords": [2, 5, 8], "Slices": [0, 1], "Sizes": [1], "Limits": lim, "AdmitOversize": True}),
+        ("A4b", {"MinLen": 4, "MaxLen": 4, "Turns": [1, 2], "Ords": [5, 8], "Slices": [0, 1], "Sizes": [1, 2], "Limits": lim, "AdmitOversize": True}),
+        ("B5", {"MinLen": 5, "MaxLen": 5, "Turns": [1, 2], "Ords": [4, 7], "Slices": [0], "Sizes": [1, 2], "Limits": lim, "AdmitOversize": True}),
+        ("C5", {"MinLen": 5, "MaxLen": 5, "Turns": [1, 2], "Ords": [6], "Slices": [0, 1], "Sizes": [1, 2], "Limits": lim, "AdmitOversize": True}),
+        ("D5", {"MinLen": 5, "MaxLen": 5, "Turns": [1], "Ords": [1, 6, 9], "Slices": [0], "Sizes": [1, 3], "Limits": lim, "AdmitOversize": True}),
     ]
 
 
-STAGER_INVS = ["DrainSorted", "StagedAllFlushedOnce", "FlushOrderIndependentOfLimit_Monotone", "RetrySucceeds"]
+STAGER_INVS = ["DrainSorted", "StagedAllFlushedOnce", "FlushOrderIndependentOfLimit_Monotone", "RetryAlwaysSucceeds", "RetrySucceeds"]
 
 
 def _stager_part(run, jobs: Jobs, rep: Reporter) -> None:
     from . import c16_stager as S
     S.calibrate(range(1, 4))
     run.extra["stager_payload_pads"] = dict(S._PADS)
-    # the two hypotheses of the design, refuted by TLC on the faithful model (then sought on the real code below)
-    for name, inv in (("Stager_hyp_limit_independent", "FlushOrderIndependentOfLimit"), ("Stager_hyp_retry", "RetryAlwaysSucceeds")):
+    # limit-independence for arbitrary arrivals is refuted by TLC on the faithful model (then sought on the real
+    # code below: the open finding); the control model of a stager that refuses an over-sized record also when
+    # empty must refute RetryAlwaysSucceeds (non-vacuity of that invariant)
+    for name, inv, what in (("Stager_hyp_limit_independent", "FlushOrderIndependentOfLimit", "refuted_on_faithful_model"),
+                            ("Stager_control_refusing_oversize", "RetryAlwaysSucceeds", "refuted_on_control_model")):
         r = jobs.get(name)
         if r.violation is None or r.violation["name"] != inv:
-            raise TLCError(f"{name}: expected TLC to refute {inv} on the model of the documented mechanism")
-        run.ok(f"Model.{inv}_refuted_on_faithful_model")
+            raise TLCError(f"{name}: expected TLC to refute {inv}")
+        run.ok(f"Model.{inv}_{what}")
     total = 0
     nonmono = indep_fail_cases = oversize_runs = 0
     for cname, consts in stager_configs(run.quick):
@@ -469,9 +475,11 @@ def check(run) -> None:
         for consts in rotate_configs(q):
             jobs.start(f"Rotate_n{consts['N']}_x{consts['Extra']}_o{consts['MaxOps']}", "Rotate", consts, ROTATE_INVS,
                        constraint="EmitDone", workers=2)
-        small = {"MinLen": 1, "MaxLen": 2, "Turns": [1, 2], "Ords": [1, 6], "Slices": [0, 1], "Sizes": [1, 2], "Limits": Def("1..4")}
+        small = {"MinLen": 1, "MaxLen": 2, "Turns": [1, 2], "Ords": [1, 6], "Slices": [0, 1], "Sizes": [1, 2], "Limits": Def("1..4"),
+                 "AdmitOversize": True}
         jobs.start("Stager_hyp_limit_independent", "Stager", small, ["FlushOrderIndependentOfLimit"], workers=1, expect_violation=True)
-        jobs.start("Stager_hyp_retry", "Stager", small, ["RetryAlwaysSucceeds"], workers=1, expect_violation=True)
+        jobs.start("Stager_control_refusing_oversize", "Stager", dict(small, AdmitOversize=False), ["RetryAlwaysSucceeds"], workers=1,
+                   expect_violation=True)
         for cname, consts in stager_configs(q):
             jobs.start(f"Stager_{cname}", "Stager", consts, STAGER_INVS, emit=True, workers=run.pick(4, 6), timeout_s=1500)
         # ---- bind ----
